@@ -1,14 +1,145 @@
-(* Props/C09.v -- placeholder until the parser proofs land: entry points agree definitionally. *)
-From JsonSyntax Require Import Base.Prelude Base.Value Base.Unicode Model.Parser Model.EntryPoints.
+(* Props/C09.v -- RFC 8785: the compact text of the canonicalized value is the output of the
+   reference serializer Spec/Jcs.jcs.  Statements only.  Structural half (member order,
+   definedness); the number conversion of the implementation is the parameter [num_canon],
+   its agreement with Spec/EcmaNumber.canon_number is the premise [nums_ok] (validated by the
+   correspondence run).
+   Premise [keys_scalar]: member names are sequences of Unicode scalar values -- always true
+   of a Rust String; the Gallina model allows arbitrary code point lists, on which UTF-16
+   encoding is not injective (C09_scalar_keys_needed). *)
+From JsonSyntax Require Import Base.Prelude Base.Value Base.Unicode Model.Compare Model.Canon
+  Spec.Minimal Spec.EcmaNumber Spec.Jcs Spec.CanonSpec Proofs.CompareProofs Proofs.CanonProofs
+  Base.Float64 Proofs.Float64Proofs Proofs.NumberProofs Proofs.NearestDouble Proofs.CanonNumber Proofs.NumberExamples.
+From Coq Require Import ZArith Reals SpecFloat.
+From Flocq Require Import Core BinarySingleNaN.
 
-Theorem C09_entry_points_text : forall cs,
-  parse_str cs = parse_str_with strict cs /\
-  parse_str cs = parse_utf8 cs /\
-  parse_str cs = parse_utf8_with strict cs /\
-  parse_str cs = parse_infallible_utf8 cs /\
-  parse_str cs = parse_utf8_infallible_with strict cs /\
-  parse_str cs = parse (chars cs) /\
-  parse_str cs = parse_with strict (chars cs).
-Proof. exact (fun cs => conj eq_refl (conj eq_refl (conj eq_refl (conj eq_refl (conj eq_refl (conj eq_refl eq_refl)))))). Qed.
+(* canonicalize, then print compactly (C08: compact printing is ser_min) = jcs *)
+Theorem C09_canon_jcs : forall (num_canon : list N -> list N) v,
+  nodup_keys v -> keys_scalar v -> nums_ok num_canon v ->
+  jcs v = Some (ser_min (canonicalize num_canon v)).
+Proof. exact canon_jcs. Qed.
 
-Print Assumptions C09_entry_points_text.
+(* the same with the well-formedness predicate of the other families *)
+Theorem C09_canon_jcs_wfv : forall (num_canon : list N -> list N) v,
+  wfv v -> nodup_keys v -> nums_ok num_canon v ->
+  jcs v = Some (ser_min (canonicalize num_canon v)).
+Proof. exact canon_jcs_wfv. Qed.
+
+(* with the executable reference conversion: whenever RFC 8785 assigns a text, it is this one *)
+Theorem C09_canon_jcs_reference : forall v t,
+  nodup_keys v -> keys_scalar v -> jcs v = Some t ->
+  t = ser_min (canonicalize ref_num_canon v).
+Proof. exact canon_jcs_ref. Qed.
+
+(* jcs is defined exactly on values all of whose numbers are renderable; otherwise None *)
+Theorem C09_jcs_defined_iff : forall v,
+  (exists t, jcs v = Some t) <-> each_num (fun n => exists t, canon_number n = Some t) v.
+Proof. exact jcs_defined_iff. Qed.
+Theorem C09_jcs_none : forall v,
+  ~ each_num (fun n => exists t, canon_number n = Some t) v -> jcs v = None.
+Proof. exact jcs_none. Qed.
+
+(* every object of the canonical form is sorted for the comparator; with distinct scalar keys
+   the member names are strictly increasing as UTF-16 code unit sequences *)
+Theorem C09_sorted : forall (num_canon : list N -> list N) v,
+  each_obj entries_sorted (canonicalize num_canon v).
+Proof. exact canon_sorted. Qed.
+Theorem C09_keys_strictly_increasing : forall (num_canon : list N -> list N) v,
+  nodup_keys v -> keys_scalar v -> each_obj keys_increasing (canonicalize num_canon v).
+Proof. exact canon_keys_increasing. Qed.
+(* the specification's strict key order is the strict part of the implementation's comparison *)
+Theorem C09_key_order : forall a b, key_lt a b = true <-> utf16_cmp a b = Lt.
+Proof. exact key_lt_utf16. Qed.
+
+(* without [keys_scalar] the statement is false of the model *)
+Example C09_scalar_keys_needed :
+  let v := VObj [(bad_key1, VBool true); (bad_key2, VBool false)] in
+  nodup_keys v /\ nums_ok (fun n => n) v /\
+  jcs v <> Some (ser_min (canonicalize (fun n => n) v)).
+Proof. exact canon_jcs_needs_scalar_keys. Qed.
+
+(* the premises are satisfiable: {"\u{10000}":1.0,"\u{E000}":[0.50,{"b":null,"a":true}],"a":"x","":10e20} *)
+Example C09_example_premises :
+  nodup_keys ex_value /\ keys_scalar ex_value /\ nums_ok ref_num_canon ex_value.
+Proof. exact ex_hypotheses. Qed.
+Example C09_example_canonical : canonicalize ref_num_canon ex_value = ex_canonical.
+Proof. exact ex_canonicalize. Qed.
+Example C09_example_text :
+  jcs ex_value =
+  Some (s2l "{"""":1e+21,""a"":""x"","""
+          ++ [0x10000] ++ s2l """:1,""" ++ [0xE000] ++ s2l """:[0.5,{""a"":true,""b"":null}]}").
+Proof. exact ex_jcs. Qed.
+
+(* ---------------------------------------------------------------------------------------
+   NUMBER HALF (these depend on Flocq's theorems, i.e. on the four standard-library axioms
+   ClassicalDedekindReals.sig_forall_dec / sig_not_dec, functional_extensionality_dep,
+   Classical_Prop.classic -- see the trusted base)
+   --------------------------------------------------------------------------------------- *)
+
+(* THE statement of C09 for the reference conversion: on every I-JSON value (distinct member
+   names, every number with a finite nearest double) with scalar member names, the compact
+   text of the canonicalized value is the RFC 8785 text *)
+Theorem C09 : forall v, ijson v -> keys_scalar v ->
+  jcs v = Some (ser_min (canonicalize ref_num_canon v)).
+Proof. exact canon_ref_jcs. Qed.
+
+(* "the double nearest to its exact decimal value": nearest_double_pos m e is the IEEE-754
+   binary64 round-to-nearest-even of m * 10^e (infinity when that exceeds the range) *)
+Theorem C09_nearest_double_correct : forall m e, nd_spec (dec_R m e) (nearest_double_pos m e).
+Proof. exact nearest_double_pos_correct. Qed.
+Theorem C09_nearest_double_signed : forall d, (0 <= d_mant d)%Z ->
+  if Rlt_bool (Rabs (round64 (decimal_R d))) (bpow radix2 1024)
+  then valid_binary 53 1024 (nearest_double d) = true /\ is_finite_SF (nearest_double d) = true /\
+       sign_SF (nearest_double d) = d_neg d /\ SF2R radix2 (nearest_double d) = round64 (decimal_R d)
+  else nearest_double d = S754_infinity (d_neg d).
+Proof. exact nearest_double_correct. Qed.
+
+(* "shortest round-trip rendering": the rendering reads back to the same double ... *)
+Theorem C09_rendering_round_trips : forall x t, ecma_to_string x = Some t ->
+  exists d, read_decimal t = Some d /\ nearest_double d = drop_zero_sign x.
+Proof. exact ecma_round_trip. Qed.
+(* ... its digit string s (k digits, 1 <= k <= 17) is a candidate that rounds back, and no
+   examined candidate with fewer digits does *)
+Theorem C09_digits_round_trip : forall m e n k s, nks m e = Some (n, k, s) ->
+  (1 <= k <= 17)%Z /\ (10 ^ (k - 1) <= s < 10 ^ k)%Z /\
+  nearest_double_pos (Z.to_pos s) (n - k) = S754_finite false m e.
+Proof. exact nks_some. Qed.
+Theorem C09_digits_minimal : forall m e n k s, nks m e = Some (n, k, s) ->
+  forall k' c, (1 <= k' < k)%Z -> In c (cands (nks_num m e) (nks_den e) (nks_n0 m e) k') ->
+  cand_ok (S754_finite false m e) k' c = false.
+Proof. exact nks_minimal. Qed.
+
+(* RFC 8785 Appendix B, rows checked inside Coq (all 26 are in Proofs/NumberExamples.v) *)
+Example C09_rfc8785_appendix_B :
+  of_hex 0x0000000000000001 = txt "5e-324" /\
+  of_hex 0x7fefffffffffffff = txt "1.7976931348623157e+308" /\
+  of_hex 0x4430000000000000 = txt "295147905179352830000" /\
+  of_hex 0x44b52d02c7e14af6 = txt "1e+23" /\
+  of_hex 0x444b1ae4d6e2ef50 = txt "1e+21" /\
+  of_hex 0x3eb0c6f7a0b5ed8d = txt "0.000001" /\
+  of_hex 0x3eb0c6f7a0b5ed8c = txt "9.999999999999997e-7" /\
+  of_hex 0x43143ff3c1cb0959 = txt "1424953923781206.2".
+Proof. vm_compute. repeat split. Qed.
+(* the witness of former defect E2 (lossy conversion): now the correctly rounded double *)
+Example C09_former_defect_E2 : canon "4.14673952822385274921803532e91" = txt "4.146739528223853e+91".
+Proof. exact read_E2_witness. Qed.
+
+Print Assumptions C09_canon_jcs.
+Print Assumptions C09_canon_jcs_wfv.
+Print Assumptions C09_canon_jcs_reference.
+Print Assumptions C09_jcs_defined_iff.
+Print Assumptions C09_jcs_none.
+Print Assumptions C09_sorted.
+Print Assumptions C09_keys_strictly_increasing.
+Print Assumptions C09_key_order.
+Print Assumptions C09_scalar_keys_needed.
+Print Assumptions C09_example_premises.
+Print Assumptions C09_example_canonical.
+Print Assumptions C09_example_text.
+Print Assumptions C09.
+Print Assumptions C09_nearest_double_correct.
+Print Assumptions C09_nearest_double_signed.
+Print Assumptions C09_rendering_round_trips.
+Print Assumptions C09_digits_round_trip.
+Print Assumptions C09_digits_minimal.
+Print Assumptions C09_rfc8785_appendix_B.
+Print Assumptions C09_former_defect_E2.
